@@ -497,7 +497,7 @@ def run(ctx):
             terms.append('[%s]' % '; '.join([coq_pos(name, args)] + [coq_nam(name, pn, args, o) for o in orders]))
         meta.append((name, args, pn, orders))
     impl = ctx.run_impl('feel', reqs, shards=16)
-    model = ctx.run_model(HEADER, terms, shard_size=max(200, len(terms) // 16 + 1), tag='calls')
+    model = ctx.run_model(HEADER, terms, shard_size=max(200, len(terms) // 16 + 1), tag='calls%d' % os.getpid())
     mi = iter(model)
     per_bif = {}
     dbg = []
